@@ -28,10 +28,11 @@ type hCache struct {
 	table   map[string]llo.RetirementReport // attested bytes -> report
 	mine    []byte                          // what AttestedRetirementReport returns
 	mineErr error
+	digest  types.ConfigDigest // the configured predecessor: the only digest this cache answers for
 }
 
 func (c *hCache) AttestedRetirementReport(d types.ConfigDigest) ([]byte, error) {
-	if d != predDigest {
+	if d != c.digest {
 		return nil, errors.New("retirement report requested for a digest that is not the configured predecessor")
 	}
 	return c.mine, c.mineErr
@@ -44,7 +45,7 @@ func (c *hCache) CheckAttestedRetirementReport(d types.ConfigDigest, b []byte) (
 		// digest the host writes into the configuration buffer once this plugin has been built
 		return llo.RetirementReport{ProtocolVersion: 0}, nil
 	}
-	if d != predDigest {
+	if d != c.digest {
 		// attestations are checked against the signers of ONE predecessor: the configured one
 		return llo.RetirementReport{}, errors.New("attestation checked against a digest that is not the configured predecessor")
 	}
@@ -172,6 +173,7 @@ type hPlugin struct {
 }
 
 var predDigest = types.ConfigDigest{0xaa, 1, 2, 3}
+var predDigest2 = types.ConfigDigest{0xaa, 4, 5, 6}
 var ownDigest = types.ConfigDigest{0xbb, 9, 9, 9}
 var otherDigest = types.ConfigDigest{0xcc, 7, 7, 7} // predecessor of some other instance on the same host
 
@@ -181,10 +183,11 @@ type hCfg struct {
 	MinInterval uint64
 	HasPred     bool
 	Verbose     bool
+	Pred2       bool
 }
 
 func jCfg(v any) hCfg {
-	return hCfg{F: jInt(jget(v, "f")), Version: jU32(jget(v, "version")), MinInterval: jU64(jget(v, "minInterval")), HasPred: jBool(jget(v, "hasPred")), Verbose: jBool(jget(v, "verbose"))}
+	return hCfg{F: jInt(jget(v, "f")), Version: jU32(jget(v, "version")), MinInterval: jU64(jget(v, "minInterval")), HasPred: jBool(jget(v, "hasPred")), Verbose: jBool(jget(v, "verbose")), Pred2: jBool(jget(v, "pred2"))}
 }
 
 var allFormats = []llotypes.ReportFormat{1, 2, 3, 4, 5, 6, 7, 8, 9, 10, 11, 12, 42}
@@ -203,6 +206,10 @@ func newPlugin(c hCfg, missingFormats map[uint32]bool, telemetry bool) (*hPlugin
 	oc := llo.OnchainConfig{Version: 1}
 	if c.HasPred {
 		d := predDigest
+		if c.Pred2 {
+			d = predDigest2
+		}
+		hp.cache.digest = d
 		oc.PredecessorConfigDigest = &d
 	}
 	ocb, err := llo.EVMOnchainConfigCodec{}.Encode(oc)
